@@ -82,6 +82,10 @@ CLAIMED = {
          "Design: 0.13-0.94 M states: InfoRoundTrip, P2PRoundTrip across the 8-per-word boundary, ResvRuleSound / ResvProcedureIsRule for every busy-core pattern on <= 3 chips x 4 cores. Conformance: 271 machine states quick / 2.5 k thorough incl. sparse 255-wide address spaces, unresponsive chips, both version encodings, IOBUF chains; 30+ clauses incl. ChipsExactlyResponding, MachineLinksTrue, ReservationsCoverExactlyNonIdleCores, ReservationsDisjoint and Env* clauses validating the simulator's replies against the documented layouts.",
          "Trusted: TLC, harness/env/probesim.py as environment (validated by Env* clauses). build_application_map is anchored code but not part of the statement and is not judged.",
          "DESIGN.md §6 C14"),
+ "C10": ("TLA+ specs RouterLoad (TablesOf / MultiSource; staging record layout; router install rule) + RouterLoadDesign (trees built hop by hop -> tables; router alloc / load / clear machine; TLC exhaustive) + RouterLoadTrace validating routing_tree_to_tables and load_routing_table_entries / get_routing_table_entries against the simulated machine",
+         "Design: 54 k + 112 k + 67 k states (router machine; table generation in tree order and in any order). Conformance: tables from the real router and hand-shaped trees (shared key/mask, equal / different / subset forks, route-less leaves) judged as sets per chip (TablesExact, MultisourcePrecisely); loads of 0..1023 entries, all 24 route bits, arbitrary keys/masks, free-list states incl. full: StagingRecordsExact, LoadCommandMatches, InstalledExactlyGiven, AllocFailureRaisesAndInstallsNothing, ReadBackSame, EnvInstallMatchesStaging.",
+         "Trusted: TLC, harness/proj.py tree flattening, simulator as environment (validated by Env clauses).",
+         "DESIGN.md §6 C10"),
 }
 NOT_YET = "check not built yet in this round (planned in DESIGN.md §6); not claimed until its spec and conformance harness exist"
 
